@@ -2,7 +2,7 @@ import LexVerif.Proof.SepGen8
 /-!
 # Proof.SepLocal1 — the separator predicates look only at a small neighbourhood: replacing a neighbour that is neither
 digit nor separator by "no neighbour" (what the re-scan of a stored slice sees at the slice boundary) never turns a skip
-decision into a non-skip — except for I+T+C (`Pred.itc`, the recorded defect)
+decision into a non-skip — except for I+T+C (`Pred.itc`, the recorded defect; with the repair `Fix.itc` also there)
 -/
 set_option linter.unusedSimpArgs false
 namespace LexVerif.Proof.Sep
@@ -25,7 +25,7 @@ theorem weaker_cases (c : Cfg) {o' o : Option Nat} (h : Weaker c o' o) :
     | some y => exact Or.inr (Or.inr ⟨h1, y, rfl, h2 y rfl⟩)
 
 /-- **monotonicity of the skip decision** under `Weaker` neighbours, for every predicate but I+T+C -/
-theorem holds_weaker (c : Cfg) (p : Pred) (hp : p ≠ .itc) (first : Bool) (n n' : Nbr)
+theorem holds_weaker (c : Cfg) (p : Pred) (hp : p ≠ .itc ∨ Fix.itc = true) (first : Bool) (n n' : Nbr)
     (h1 : Weaker c n'.prev n.prev) (h2 : Weaker c n'.next n.next) (h3 : Weaker c n'.prevc n.prevc)
     (h4 : Weaker c n'.nextc n.nextc) (h : p.holds c n first = true) : p.holds c n' first = true := by
   obtain ⟨p1, x1, pc1, xc1⟩ := n
@@ -38,7 +38,10 @@ theorem holds_weaker (c : Cfg) (p : Pred) (hp : p ≠ .itc) (first : Bool) (n n'
   cases p <;> cases first <;>
   first
     | exact h
-    | exact absurd rfl hp
+    | (rcases hp with hp | hp
+       · exact absurd rfl hp
+       · simp only [Pred.holds, hp, if_true] at h ⊢
+         simp_all)
     | (simp only [Pred.holds, Option.any_some, Option.any_none, Option.all_some, Option.all_none, Bool.and_true,
         Bool.true_and, Bool.and_false, Bool.false_and, Bool.not_false, Bool.not_true, Bool.or_false, Bool.false_or,
         Bool.or_true, Bool.true_or, Bool.false_eq_true, if_false, if_true, *] at h ⊢
